@@ -54,11 +54,17 @@ theorem insert_accepts_iff (L : Nat) (s : WState) (last : Option Key) (k : Key) 
     (s.insert L k).isSome = true ↔
       (last = none ∨ (∃ l, last = some l ∧ lexLt l k = true) ∨
         (s.blockStart = false ∧ last = some [] ∧ k = [])) := by
+  have hsg : separatorGuard = true := by decide
+  have hig : increasingGuard = true := by decide
+  have hinc : incOk s.prev k = true ↔ increasingKeys s.prev k = some true := by
+    unfold incOk; simp [hig]
   have hins : (s.insert L k).isSome = true ↔ (s.sepOk k = true ∧ increasingKeys s.prev k = some true) := by
+    rw [← hinc]
     unfold WState.insert; split <;> simp_all
   rw [hins]
   unfold WInv at h
   unfold WState.sepOk
+  rw [hsg, Bool.and_true]
   by_cases hb : s.blockStart = true
   · simp only [hb, if_true] at h ⊢
     obtain ⟨hp, hl⟩ := h
